@@ -87,4 +87,8 @@ StepFails(st, op, ev) ==
         THEN {} ELSE {"one_axis_entry_per_dimension"})
   \cup (IF AxesEq(ev.axes, e.axes) THEN {} ELSE {"axis_metadata_of_selected_items"})
   \cup (IF {ev.meta[i] : i \in 1..Len(ev.meta)} = e.meta THEN {} ELSE {"item_metadata"})
+  \* the operand of the operation is what it was (its axes, metadata and values): it can be sliced / stacked / reduced again
+  \cup (IF ev.operand_intact THEN {} ELSE {"operation_changed_its_operand"})
+  \* an axis that continues an axis of the operand keeps the fields the operation does not concern (units, labels, direction, flags)
+  \cup (IF ev.extras_kept THEN {} ELSE {"axis_fields_not_carried"})
 =============================================================================
